@@ -373,7 +373,8 @@ class TFLiteSerialiser:
         # Since we traverse the graph starting with all outputs they are
         # always added but if an input is not referenced it will not be added
         # to an op.
-        tensor_set = set(sg.original_inputs)
+        # Insertion ordered (a dict, not a set): tensors with equal names keep the order in which the graph reaches them
+        tensor_set = dict.fromkeys(sg.original_inputs)
 
         # Remove any virtual outputs since they are only used internally when
         # traversing the graph.
@@ -388,7 +389,7 @@ class TFLiteSerialiser:
         for op in all_ops + placeholder_ops:
             for tens in op.inputs + op.outputs + op.intermediates:
                 if tens is not None:
-                    tensor_set.add(tens)
+                    tensor_set[tens] = None
 
         all_tensors = [tens for nm, idx, tens in sorted((tens.name, idx, tens) for idx, tens in enumerate(tensor_set))]
 
